@@ -67,3 +67,8 @@ claim("C19", "exploration",
       "Source configurations are generated around the acceptance boundaries and pushed through the real numbering code: Lancero with 1-4 cards (any device numbers/order, equal or mixed row counts, columns 1-8), first-row numbers incl. 0/negative, card and column separations negative/0/one-too-small/exact/large, on fresh and on re-used source objects (PrepareChannels); Abaco group layouts adjacent/spaced/overlapping by one or several channels/nested via scripted packets (Sample + PrepareChannels); Triangle/SimPulse/Roach/AnySource defaults. For every accepted configuration the identity tables must have pairwise distinct names, partners sharing one number, no number collision, reported groups covering exactly the numbers in use, row/column codes equal to the true geometry; for a sample, LJH2.2+LJH3 writing is started, one record per stream written, and the directory must hold one file per stream whose header identity equals the reported identity.",
       "Outcome-based: a colliding configuration that is accepted is observed as a collision; rejecting a collision-free configuration is not flagged. Device geometry is set directly in-package (what card sampling would determine); the full Start path with a scripted card is exercised by C04/C10.",
       "uniqueness/consistency predicates over identity tables after the real PrepareChannels/Sample, plus decoded file headers", "DESIGN.md §3 C19")
+
+claim("C04", "exploration",
+      "The real Start (sampleCard, PrepareChannels, PrepareRun, StartRun alignment), reader goroutine, distributeData and CoreLoop run against a scripted in-memory card implementing lancero.Lanceroer: device numbers 0/1/3, 2-32 rows, 1-8 columns, frame bit on row 0, per-row external-trigger flag identical across columns, every word a function of (frame,row,col); the byte stream is chopped into scripted driver reads (less than 3 frames, not frame-aligned, exact multiples, hundreds of frames); 0-4 mix changes (0, fractional, negative, +-1000 for saturation) go through ConfigureMixFraction at chosen block counts; every third case removes word-aligned byte runs (4 bytes to 3 frames, every word offset within the first unreleased frame). Every block handed to ProcessSegments is decoded: each emitted frame must be a whole card frame in the column-major error/feedback channels, consecutive unless bytes were lost; feedback = previous feedback word with flag bits cleared + scale x signed error, saturated, under one mix setting per block consistent with the times of the changes; external-trigger counts = frame*rows+row of every rising edge of the flag in (frame,row) order; frame numbers never overlap; an alignment-breaking loss is reported by the block that re-aligned; the card's release accounting is never exceeded.",
+      "The scripted card stands in for the hardware and the driver. Assumptions listed in the evidence file: whole 32-bit words, one card per source, rows >= 2, Wait() returns with at least 4 frames available, lost bytes lie within the first frame of the unreleased data, whole-frame losses need not be reported, mix rounding accepted within 0.5.",
+      "reference demux/mix/external-trigger model over blocks tapped at ProcessSegments; scripted card with chunking and byte-loss injection", "DESIGN.md §3 C04")
